@@ -35,7 +35,7 @@ SEEDS = [0, 1, 2, 7, 2**32 - 1, 2**32, 12345678901234567890, 3141592653]
 @st.composite
 def descriptor(draw):
     kind = draw(st.sampled_from(["ft", "ft_sh", "vk", "fried"]))
-    d = {"kind": kind, "seed": draw(st.sampled_from(SEEDS)), "seed_type": draw(st.sampled_from(["int", "int", "np_int64", "np_uint64", "np_intc"])), "r0": draw(st.sampled_from([0.1, 0.16, 0.5])), "L0": draw(st.sampled_from([10.0, 25.0, 100.0])),
+    d = {"kind": kind, "seed": draw(st.sampled_from(SEEDS)), "seed_type": draw(st.sampled_from(["int", "int", "np_int64", "np_uint64", "np_intc", "seed_sequence", "int_list"])), "r0": draw(st.sampled_from([0.1, 0.16, 0.5])), "L0": draw(st.sampled_from([10.0, 25.0, 100.0])),
          "ps": draw(st.sampled_from([0.05, 0.1, 0.25]))}
     if kind in ("ft", "ft_sh"):
         d["N"] = draw(st.sampled_from([2, 4, 8, 16]))
@@ -54,8 +54,18 @@ def key(d):
     return tuple(sorted((k, v) for k, v in d.items() if k != "seed_type"))
 
 
+_HELD = {}
+
+
 def seed_obj(d):
     t, v = d.get("seed_type", "int"), d["seed"]
+    # a caller that keeps ONE seed object (numpy.random.SeedSequence, or the list of words it stands for) and hands the same
+    # object to every call it wants reproduced: numpy.random.default_rng(SeedSequence(v)) is the generator of default_rng(v),
+    # and using it does not change the object, so the same object again means the same screen again
+    if t == "seed_sequence":
+        return _HELD.setdefault((t, v), np.random.SeedSequence(v))
+    if t == "int_list":
+        return _HELD.setdefault((t, v), [int(v)])
     if t == "np_int64" and v < 2**63:
         return np.int64(v)
     if t == "np_uint64" and v < 2**64:
